@@ -1,6 +1,6 @@
 # J1939-22 (CAN FD): FD.TP.CM / FD.TP.DT frame builders against the independent layouts of specs/j22_spec.py (C03, C02)
 
-@unit("j1939.j1939_22:J1939_22.__send_tp_cm", props=["C02"])
+@unit("j1939.j1939_22:J1939_22.__send_tp_cm", props=["C02", "C03"])
 def _(self: "J1939_22", src_address: "int", dest_address: "int", TpControlType: "int", session_num: "int", message_size: "int",
       num_segments: "int", byte_7: "int", byte_8: "int", pgn: "int", priority: "int"):
     requires(-2**40 <= src_address < 2**40, -2**40 <= dest_address < 2**40, 0 <= TpControlType < 2**16, 0 <= session_num < 2**16,
@@ -17,7 +17,7 @@ def _(self: "J1939_22", src_address: "int", dest_address: "int", TpControlType: 
             bits(trace[-1].l2[0], 0, 4) == bits(TpControlType, 0, 4), bits(trace[-1].l2[0], 4, 4) == bits(session_num, 0, 4))
 
 
-@unit("j1939.j1939_22:J1939_22.__send_tp_abort", props=["C02"])
+@unit("j1939.j1939_22:J1939_22.__send_tp_abort", props=["C02", "C03"])
 def _(self: "J1939_22", src_address: "int", dest_address: "int", session_num: "int", reason: "int", pgn_value: "int"):
     requires(-2**40 <= src_address < 2**40, -2**40 <= dest_address < 2**40, 0 <= session_num < 16, 0 <= reason < 256, 0 <= pgn_value < 2**24)
     modifies(trace)
@@ -26,7 +26,7 @@ def _(self: "J1939_22", src_address: "int", dest_address: "int", session_num: "i
                        fd_cm(FD_ABORT, session_num, 0xFFFFFF, 0xFFFFFF, 0xFF, reason, pgn_value)))
 
 
-@unit("j1939.j1939_22:J1939_22.__send_tp_rts", props=["C02"])
+@unit("j1939.j1939_22:J1939_22.__send_tp_rts", props=["C02", "C03"])
 def _(self: "J1939_22", priority: "int", src_address: "int", dest_address: "int", session_num: "int", pgn_value: "int",
       message_size: "int", num_segments: "int", max_cmdt_packets: "int", adt: "int"):
     requires(-2**40 <= src_address < 2**40, -2**40 <= dest_address < 2**40, 0 <= session_num < 16, 0 <= pgn_value < 2**24,
@@ -37,7 +37,7 @@ def _(self: "J1939_22", priority: "int", src_address: "int", dest_address: "int"
                        fd_cm(FD_RTS, session_num, message_size, num_segments, max_cmdt_packets, adt, pgn_value)))
 
 
-@unit("j1939.j1939_22:J1939_22.__send_tp_cts", props=["C02"])
+@unit("j1939.j1939_22:J1939_22.__send_tp_cts", props=["C02", "C03"])
 def _(self: "J1939_22", src_address: "int", dest_address: "int", session_num: "int", num_segments_that_can_be_sent: "int",
       next_packet: "int", pgn_value: "int"):
     requires(-2**40 <= src_address < 2**40, -2**40 <= dest_address < 2**40, 0 <= session_num < 16, 0 <= pgn_value < 2**24,
@@ -48,7 +48,7 @@ def _(self: "J1939_22", src_address: "int", dest_address: "int", session_num: "i
                        fd_cm(FD_CTS, session_num, 0xFFFFFF, next_packet, num_segments_that_can_be_sent, 0, pgn_value)))
 
 
-@unit("j1939.j1939_22:J1939_22.__send_tp_eom_status", props=["C02"])
+@unit("j1939.j1939_22:J1939_22.__send_tp_eom_status", props=["C02", "C03"])
 def _(self: "J1939_22", src_address: "int", dest_address: "int", session_num: "int", message_size: "int", num_segments: "int",
       pgn_value: "int", size_of_assurance_data: "int", adt: "int"):
     requires(-2**40 <= src_address < 2**40, -2**40 <= dest_address < 2**40, 0 <= session_num < 16, 0 <= pgn_value < 2**24,
@@ -59,7 +59,7 @@ def _(self: "J1939_22", src_address: "int", dest_address: "int", session_num: "i
                        fd_cm(FD_EOMS, session_num, message_size, num_segments, size_of_assurance_data, adt, pgn_value)))
 
 
-@unit("j1939.j1939_22:J1939_22.__send_tp_eom_ack", props=["C02"])
+@unit("j1939.j1939_22:J1939_22.__send_tp_eom_ack", props=["C02", "C03"])
 def _(self: "J1939_22", src_address: "int", dest_address: "int", session_num: "int", message_size: "int", num_segments: "int",
       pgn_value: "int"):
     requires(-2**40 <= src_address < 2**40, -2**40 <= dest_address < 2**40, 0 <= session_num < 16, 0 <= pgn_value < 2**24,
@@ -70,7 +70,7 @@ def _(self: "J1939_22", src_address: "int", dest_address: "int", session_num: "i
                        fd_cm(FD_EOMA, session_num, message_size, num_segments, 0xFF, 0xFF, pgn_value)))
 
 
-@unit("j1939.j1939_22:J1939_22.__send_tp_bam", props=["C02"])
+@unit("j1939.j1939_22:J1939_22.__send_tp_bam", props=["C02", "C03"])
 def _(self: "J1939_22", priority: "int", src_address: "int", session_num: "int", pgn_value: "int", message_size: "int",
       num_segments: "int"):
     requires(-2**40 <= src_address < 2**40, 0 <= session_num < 16, 0 <= pgn_value < 2**24, 0 <= message_size < 2**24,
@@ -83,7 +83,7 @@ def _(self: "J1939_22", priority: "int", src_address: "int", session_num: "int",
 
 # FD.TP.DT: header (session nibble, 24-bit segment number), the segment octets, 0xFF fill to a legal CAN FD length.
 # The frame is built in a new list: the segment handed in (the one stored in the session) is not modified (frame condition).
-@unit("j1939.j1939_22:J1939_22.__send_tp_dt", props=["C02"])
+@unit("j1939.j1939_22:J1939_22.__send_tp_dt", props=["C02", "C03"])
 def _(self: "J1939_22", src_address: "int", dest_address: "int", session_num: "int", segment_num: "int", data: "octets", Dtfi: "int"):
     requires(lut_ok(self), -2**40 <= src_address < 2**40, -2**40 <= dest_address < 2**40,
              0 <= session_num < 2**16, 0 <= segment_num < 2**24, 0 <= Dtfi < 2**16)
